@@ -589,14 +589,12 @@ class PRandomImpulseSequence(PStochasticPattern):
         self.pos = 0
 
     def every(self, n: int, action: str = None):
-        if action == "explore":
-            self.every_action = lambda: self.explore()
-        elif action == "reset":
-            self.every_action = lambda: self.reset()
-        elif action == "generate":
-            self.every_action = lambda: self.generate()
-        else:
-            self.every_action = action
+        #--------------------------------------------------------------------------------
+        # A named action ("explore", "reset", "generate") is stored by name and looked up
+        # on self when it is due. (A lambda closing over self survives copy() unchanged,
+        # so the action of a copy would act on, and draw from, the original pattern.)
+        #--------------------------------------------------------------------------------
+        self.every_action = action
         self.every_count = n
         self.every_index = 0
 
@@ -627,7 +625,10 @@ class PRandomImpulseSequence(PStochasticPattern):
     def __next__(self):
         if self.every_action:
             if self.every_index == self.every_count:
-                self.every_action()
+                if self.every_action in ("explore", "reset", "generate"):
+                    getattr(self, self.every_action)()
+                else:
+                    self.every_action()
                 self.every_index = 0
             self.every_index += 1
 
